@@ -47,7 +47,7 @@ claim("C16",
       "satisfy Hill's equations and initial values entry by entry for all n, t (108 symbolic obligations discharged by "
       "term-algebra normal forms + derivation); QSW2TNW is the signed permutation (q,s,w)->(s,-q,w) with det +1 and the "
       "TNW arm a similarity transform with it; maneuver sequencing in propagate() (impulse: free flight then dv on the "
-      "velocity once; continuous: thrust to min(date, stop); two-sided applicability window; half-open thrust window); "
+      "velocity once; continuous: thrust to min(date, stop); two-sided applicability window, open at the epoch of the state and closed at the target date; half-open thrust window); "
       "every CWHelper maneuver pushed through the matrices read from cw.py realises the distances it announces and "
       "leaves the chaser where it says (16 symbolic obligations); impulses land on states built in the call and results "
       "share nothing with the stored initial orbit (ownership analysis).",
@@ -197,7 +197,8 @@ claim("C10",
       "bisection keeps the crossing inside, halves, and stops below the 1 us resolution; every override of check() "
       "conjoins the base sign test; the nine-listener table (event classes returned by info(), label direction "
       "expressions, watched quantities, same frame/form for watch and label); visibility() does not mutate the caller's "
-      "list and filters on the station's own event classes; every named intermediate of the conical-shadow and "
+      "list, filters on the station's own event classes, and no consumer of iter() inside the package writes to the "
+      "yielded samples (the listeners keep them as their previous sample); every named intermediate of the conical-shadow and "
       "terminator geometry equals its expression (term algebra) with the documented branch structure.",
       "Not decided: completeness w.r.t. sampling for discontinuous quantities, sharpness in microseconds, agreement of "
       "the shadow model with an independent one (the code's own cone formulas are frozen, including its use of one "
@@ -317,7 +318,12 @@ def main():
                  "rules read, every other function and every class- or module-level name of its anchored files) and DEP (the "
                  "units outside the anchored files that the anchored code reads directly: a table frozen from the reference "
                  "graph of bvstatic/cone.py, each group with its reason) are proven equal to their reference version by E8; "
-                 "a DEP report names the reference path from the anchored files to the changed unit.",
+                 "a DEP report names the reference path from the anchored files to the changed unit. Display methods: only "
+                 "__repr__ bodies are exempt from those pins (not Date.__repr__, which is the key of the memoised IAU tables), and "
+                 "REPR checks that every display method of the package has no effect. DUCK: for every name probed by hasattr / "
+                 "getattr-with-default in the anchored files, the classes of the package defining that name are the reference ones "
+                 "(bvstatic/data/duck.json). CONV (R15.5 / R02.9 / R20.6): the functions on the path of a frame change store only "
+                 "into objects they created.",
     }
     with open(os.path.join(HERE, "MANIFEST.json"), "w") as f:
         json.dump(man, f, indent=1, ensure_ascii=False)
